@@ -55,6 +55,12 @@ def run(ctx: Ctx) -> None:
     temp_key_format(ctx, py, rs)
     field_cover_rust(ctx, rs)
     field_cover_python(ctx, py)
+    save_completeness(ctx, py)
+    from ..snaprules import timer_restore_findings
+    found, nn = timer_restore_findings(py)
+    for key, what, ln in found:
+        ctx.violation("C16.6/restore-exact", key, what, f"{EMU}:{ln}")
+    ctx.instance("C16.6/restore-exact", "load_snapshot restores saved timer targets unconditionally and unchanged", nn, 2)
 
 
 # ---------------------------------------------------------------------------
@@ -485,3 +491,65 @@ def field_cover_python(ctx: Ctx, py: PyProgram) -> None:
             ctx.violation("C16.3/field-cover", f"{EMU}::PCE500Emulator::{f}:restore", f"{f} is saved but load_snapshot does not restore it", f"{EMU}:{load.lineno}")
     ctx.instance("C16.3/field-cover-python", "PCE500Emulator fields that steer the step path (branch-read and step-written) are saved and restored", n, 4)
     ctx.sample({"python_steering_fields": steering})
+
+
+def save_completeness(ctx: Ctx, py: PyProgram) -> None:
+    """(a) loops that copy per-entry state into a snapshot store every entry (no filter); (b) the flattened memory image copies every
+    overlay payload up to and including the last byte of its window."""
+    import ast as _ast
+    from .. import cfg as _cfg
+    from ..linform import NotLinear, alternatives, shift, show
+    n = 0
+    # (a)
+    for rel, q in ((KM_PY, "KeyboardMatrix.snapshot_state"),):
+        fn = py.func(rel, q)
+        g = _cfg.build_py(fn, q)
+        loops = [l for l in _ast.walk(fn) if isinstance(l, _ast.For) and "self._" in unparse(l.iter)]
+        if not loops:
+            raise AnalysisError(f"{q}: per-entry save loop not found")
+        for lp in loops:
+            stores = [a for a in _ast.walk(lp) if isinstance(a, _ast.Assign) and isinstance(a.targets[0], _ast.Subscript)]
+            for a in stores:
+                n += 1
+                guards = [unparse(x) for x, _pol, _o in g.guards_of(g.node_of(a)) if isinstance(x, _ast.AST) and x is not lp.iter and unparse(x) != unparse(lp.iter)]
+                skips = [x for x in _ast.walk(lp) if isinstance(x, (_ast.Continue, _ast.Break))]
+                if guards or skips:
+                    ctx.violation("C16.7/save-all-entries", key_of(rel, q, f"entries of {unparse(lp.iter)} saved selectively"),
+                                  f"{q} saves only some entries of `{unparse(lp.iter)}` ({'guard ' + guards[0] if guards else 'continue/break in the loop'}): state of the skipped entries (debounce/release counters of a key that was just released) is lost by save + load",
+                                  f"{rel}:{a.lineno}")
+    # (b)
+    rel, q = "pce500/memory.py", "PCE500Memory.export_flat_memory"
+    ctx.file_used(REPO / rel)
+    fn = py.func(rel, q)
+    defs: dict = {}
+    for a in _ast.walk(fn):
+        if isinstance(a, _ast.Assign) and len(a.targets) == 1 and isinstance(a.targets[0], _ast.Name):
+            defs.setdefault(a.targets[0].id, []).append(a.value)
+    single = {k: v[0] for k, v in defs.items() if len(v) == 1 and k not in ("start", "end", "blob_len")}
+    copies = [a for a in _ast.walk(fn) if isinstance(a, _ast.Assign) and isinstance(a.targets[0], _ast.Subscript) and isinstance(a.targets[0].slice, _ast.Slice)
+              and unparse(a.targets[0].value) == "blob" and "overlay.data" in unparse(a.value)]
+    if len(copies) != 1:
+        raise AnalysisError(f"{q}: expected one slice copy of overlay.data into the blob, found {len(copies)}")
+    cp = copies[0]
+    n += 1
+    try:
+        lo = alternatives(cp.targets[0].slice.lower, single)
+        hi = alternatives(cp.targets[0].slice.upper, single)
+        src = cp.value
+        if not (isinstance(src, _ast.Subscript) and isinstance(src.slice, _ast.Slice) and src.slice.lower is None):
+            raise NotLinear("source is not overlay.data[:k]")
+        k = alternatives(src.slice.upper, single)
+        want_hi = {(1, frozenset({("end", 1)})), (0, frozenset({("blob_len", 1)})), (0, frozenset({("start", 1), ("len(overlay.data)", 1)}))}
+        if lo != {(0, frozenset({("start", 1)}))}:
+            ctx.violation("C16.7/flat-image", key_of(rel, q, "overlay copy start"), f"the overlay payload is copied to blob[{unparse(cp.targets[0].slice.lower)}:..], not from the overlay's start", f"{rel}:{cp.lineno}")
+        if hi != want_hi:
+            ctx.violation("C16.7/flat-image", key_of(rel, q, "overlay copy does not reach the last byte of the window"),
+                          f"the overlay payload is copied up to (exclusive) {sorted(show(f) for f in hi)}; covering the window needs {sorted(show(f) for f in want_hi)}: the last byte of every data-backed overlay (e.g. 0xFFFFF of the ROM) is saved from the wrong source",
+                          f"{rel}:{cp.lineno}")
+        klen = {(c - 0, t) for c, t in k}
+        hi_minus_start = {(c, frozenset(x for x in t if x != ("start", 1)) if ("start", 1) in t else t | {("start", -1)}) for c, t in hi}
+        if klen != hi_minus_start:
+            ctx.violation("C16.7/flat-image", key_of(rel, q, "slice lengths differ"), f"blob slice and payload slice have different lengths: {sorted(show(f) for f in hi_minus_start)} vs {sorted(show(f) for f in klen)}", f"{rel}:{cp.lineno}")
+    except NotLinear as e:
+        raise AnalysisError(f"{q}: slice bounds left the linear fragment: {e}")
+    ctx.instance("C16.7/save-completeness", "per-entry save loops store every entry; flattened image copies overlay payloads through the last window byte", n, 2)
